@@ -422,7 +422,10 @@ class Interp:
                 raise Fail("unwrap")
             return v
         if k == "call":
-            f = self.lookup(e[1], scopes, outer).v
+            if e[1] == "Self" and me is not None and "::" in me.name:
+                f = self.lookup(me.name.split("::")[0], scopes, outer).v          # `Self(..)` inside a method: the method's own class
+            else:
+                f = self.lookup(e[1], scopes, outer).v
             args = [self.expr(a, scopes, outer, me) for a in e[2]]
             return self.call(f, args)
         if k == "selfcall":
